@@ -138,6 +138,10 @@ def main(argv):
                 spec = {"vbs": vbs.hex()}
                 if report:
                     spec = {"pdu_tag": 0xA8}
+                if ver == "v3":
+                    # the agent's clock at the ends of its range too (snmpEngineBoots latches at 2^31-1)
+                    spec["boots"] = rng.choice([0, 1, 2, 2 ** 31 - 2, 2 ** 31 - 1])
+                    spec["time"] = rng.choice([0, 500, 2 ** 31 - 1])
                 args = ["1.3.6.1.2.1.1.1.0"] if op == "get" else [["1.3.6.1.2.1.1.1.0", "1.3.6.1.2.1.1.2.0"]]
                 sc["steps"].append({"op": op, "args": args, "replies": [[spec]]})
                 ex.append(("get" if op == "get" else "getmany", desc, report))
@@ -149,12 +153,24 @@ def main(argv):
     if res is None:
         c.errors.append("API worker failed: " + log[-1500:])
     else:
+        # which replies are decodable at all (an undefined REAL special value is not): the model's decoder says
+        plines = ["pdu " + ber.pdu(0xA2, 1, 0, 0, [bytes.fromhex(st["replies"][0][0]["vbs"])]).hex() if "vbs" in st["replies"][0][0] else "pdu 00"
+                  for sc in scs for st in sc["steps"]]
+        decodable = iter(o.startswith("OK") for o in vf.run_lines(cd.model, plines))
         for sc, ex, rec in zip(scs, exps, res["records"]):
             if "driver_error" in rec:
+                for _st in sc["steps"]:
+                    next(decodable)
                 c.errors.append("API driver error: " + rec["driver_error"])
                 continue
             for st, (op, desc, report), out in zip(sc["steps"], ex, rec["steps"]):
                 n_api += 1
+                dec_ok = next(decodable)
+                if not dec_ok and not report and sc["version"] == "v3" and sc["v3"].get("priv") and out.get("exc") in ("TimeoutError", "BlockingIOError"):
+                    # an encrypted payload that does not decode is indistinguishable from one encrypted under another key:
+                    # the session skips it (C04 / C10 reading) and the call times out; not a matter of the C07 table
+                    c.count(("api-undecodable-skipped", sc["mode"], op), False)
+                    continue
                 c.count(("api", sc["version"], sc["mode"], op, str(desc)[:200], report), True)
                 o = ("RET " + out["value"]) if out["kind"] == "RET" else "EXC " + out["exc"]
                 bad = judge(op, desc, o, report)
